@@ -1,1 +1,124 @@
-(* placeholder until the theorems are stated *)
+(* C02  Selected and ranked paths are always maximal under the stated decision
+   order.  Statements only. *)
+From Coq Require Import List NArith ZArith Bool Sorting.Permutation.
+From RB Require Import Base.Val Model.Rib Spec.BestPath Proofs.RibC02.
+Import ListNotations.
+Open Scope N_scope.
+
+(* The comparator the RIB sorts with (RibEntry::cmp, evpn_type2_cmp for EVPN
+   Type-2 prefixes) is the decision order of the property. *)
+Theorem cmp_code_refines_spec :
+  forall fl net a b, cmp_for fl net a b = cmp_spec fl net a b.
+Proof. exact C02_cmp_code_refines_spec. Qed.
+Check cmp_code_refines_spec : forall fl net a b, cmp_for fl net a b = cmp_spec fl net a b.
+Print Assumptions cmp_code_refines_spec.
+
+(* AS hop counting over unbounded integers: AS_SET one, confederation segments zero. *)
+Theorem hops_code_refines_spec :
+  forall a, Z.of_N (hops_of a) = match a_segs a with Some s => hops_spec s | None => 0%Z end.
+Proof. exact C02_hops_code_refines_spec. Qed.
+Check hops_code_refines_spec :
+  forall a, Z.of_N (hops_of a) = match a_segs a with Some s => hops_spec s | None => 0%Z end.
+Print Assumptions hops_code_refines_spec.
+
+(* The decision order is a total preorder (plain and EVPN variant). *)
+Theorem decision_order_total_preorder :
+  forall fl net,
+    (forall a, not_worse fl net a a)
+    /\ (forall a b, not_worse fl net a b \/ not_worse fl net b a)
+    /\ (forall a b c, not_worse fl net a b -> not_worse fl net b c -> not_worse fl net a c)
+    /\ (forall a b, cmp_spec fl net b a = CompOpp (cmp_spec fl net a b)).
+Proof. exact C02_decision_order_total_preorder. Qed.
+Check decision_order_total_preorder :
+  forall fl net,
+    (forall a, not_worse fl net a a)
+    /\ (forall a b, not_worse fl net a b \/ not_worse fl net b a)
+    /\ (forall a b c, not_worse fl net a b -> not_worse fl net b c -> not_worse fl net a c)
+    /\ (forall a b, cmp_spec fl net b a = CompOpp (cmp_spec fl net a b)).
+Print Assumptions decision_order_total_preorder.
+
+(* After any history of insert / replace / remove / peer drop / stale and LLGR
+   marking / purges / next-hop flips / deferral, every destination is ranked by
+   the decision order under the current flags. *)
+Theorem dest_sorted_reachable :
+  forall shard ops net d,
+    consistent ops ->
+    In (net, d) (t_dests (run (empty_table shard) ops)) ->
+    ranked (t_flags (run (empty_table shard) ops)) net (d_entries d).
+Proof. exact C02_dest_sorted_reachable. Qed.
+Check dest_sorted_reachable :
+  forall shard ops net d,
+    consistent ops ->
+    In (net, d) (t_dests (run (empty_table shard) ops)) ->
+    ranked (t_flags (run (empty_table shard) ops)) net (d_entries d).
+Print Assumptions dest_sorted_reachable.
+
+(* The best path is a path of the prefix that is neither import-filtered nor
+   next-hop-invalid, and no other such path beats it. *)
+Theorem best_eligible_maximal :
+  forall shard ops net d b,
+    consistent ops ->
+    In (net, d) (t_dests (run (empty_table shard) ops)) ->
+    best_of d = Some b ->
+    In b (d_entries d) /\ eligible b = true
+    /\ forall e, In e (d_entries d) -> eligible e = true ->
+                 not_worse (t_flags (run (empty_table shard) ops)) net b e.
+Proof. exact C02_best_eligible_maximal. Qed.
+Check best_eligible_maximal :
+  forall shard ops net d b,
+    consistent ops ->
+    In (net, d) (t_dests (run (empty_table shard) ops)) ->
+    best_of d = Some b ->
+    In b (d_entries d) /\ eligible b = true
+    /\ forall e, In e (d_entries d) -> eligible e = true ->
+                 not_worse (t_flags (run (empty_table shard) ops)) net b e.
+Print Assumptions best_eligible_maximal.
+
+(* The outcome depends only on the current set of paths and flags, not on the
+   history: two reachable tables holding the same paths rank them identically
+   up to ties. *)
+Theorem ranking_order_independent :
+  forall shard1 ops1 shard2 ops2 net d1 d2,
+    consistent ops1 -> consistent ops2 ->
+    let t1 := run (empty_table shard1) ops1 in
+    let t2 := run (empty_table shard2) ops2 in
+    In (net, d1) (t_dests t1) -> In (net, d2) (t_dests t2) ->
+    (forall tok, flags_of (t_flags t1) tok = flags_of (t_flags t2) tok) ->
+    Permutation (d_entries d1) (d_entries d2) ->
+    Forall2 (tied (t_flags t1) net) (d_entries d1) (d_entries d2)
+    /\ Forall2 (tied (t_flags t1) net) (elig_list d1) (elig_list d2).
+Proof. exact C02_ranking_order_independent. Qed.
+Check ranking_order_independent :
+  forall shard1 ops1 shard2 ops2 net d1 d2,
+    consistent ops1 -> consistent ops2 ->
+    let t1 := run (empty_table shard1) ops1 in
+    let t2 := run (empty_table shard2) ops2 in
+    In (net, d1) (t_dests t1) -> In (net, d2) (t_dests t2) ->
+    (forall tok, flags_of (t_flags t1) tok = flags_of (t_flags t2) tok) ->
+    Permutation (d_entries d1) (d_entries d2) ->
+    Forall2 (tied (t_flags t1) net) (d_entries d1) (d_entries d2)
+    /\ Forall2 (tied (t_flags t1) net) (elig_list d1) (elig_list d2).
+Print Assumptions ranking_order_independent.
+
+(* The add-path window and the ECMP set are prefixes of the one ranking. *)
+Theorem limited_and_ecmp_are_prefixes :
+  forall fl (l : list entry) (n : nat),
+    (exists r, l = firstn n l ++ r) /\ (exists r, l = ecmp_paths fl l ++ r).
+Proof. exact C02_limited_and_ecmp_are_prefixes. Qed.
+Check limited_and_ecmp_are_prefixes :
+  forall fl (l : list entry) (n : nat),
+    (exists r, l = firstn n l ++ r) /\ (exists r, l = ecmp_paths fl l ++ r).
+Print Assumptions limited_and_ecmp_are_prefixes.
+
+(* The ECMP set is exactly the leading run tied with the best path on every
+   step before router-id. *)
+Theorem ecmp_code_refines_spec :
+  forall fl b l,
+    (forall p, In p (ecmp_paths fl (b :: l)) -> ecmp_tied fl p b)
+    /\ (forall r x, b :: l = ecmp_paths fl (b :: l) ++ x :: r -> ~ ecmp_tied fl x b).
+Proof. exact C02_ecmp_code_refines_spec. Qed.
+Check ecmp_code_refines_spec :
+  forall fl b l,
+    (forall p, In p (ecmp_paths fl (b :: l)) -> ecmp_tied fl p b)
+    /\ (forall r x, b :: l = ecmp_paths fl (b :: l) ++ x :: r -> ~ ecmp_tied fl x b).
+Print Assumptions ecmp_code_refines_spec.
